@@ -198,4 +198,95 @@ theorem url_total_of (r : Parsed) (hs : Shaped r) (hn : noEmpty r = true) (hc : 
             have := joinBase_seg_total p (lit "/photos/a." ++ a ++ '/' :: id) hn.1.2 hc.1.1
             simpa [Parsed.url, truthy, hn.1.2, fmtOpt] using this
 
+/-! ## the canonical youtube urls are youtube urls, and no facebook urls -/
+
+/-- `https://www.youtube.com/`: every url template of `ural/youtube.py` starts with it -/
+def wwwPrefix : Str :=
+  ['h', 't', 't', 'p', 's', ':', '/', '/', 'w', 'w', 'w', '.', 'y', 'o', 'u', 't', 'u', 'b', 'e', '.', 'c', 'o', 'm', '/']
+
+theorem wwwPrefix_eq : wwwPrefix = "https://www.youtube.com/".toList := by decide
+
+/-- `www.youtube.com`, character by character -/
+def wwwHost : Str := ['w', 'w', 'w', '.', 'y', 'o', 'u', 't', 'u', 'b', 'e', '.', 'c', 'o', 'm']
+
+theorem wwwHost_eq : wwwHost = "www.youtube.com".toList := by decide
+
+/-- whatever follows `https://www.youtube.com/`, `safe_urlsplit` accepts the url and its
+authority is `www.youtube.com` (the authority ends at the first `/`) -/
+theorem safe_urlsplit_www (tail : Str) :
+    ∃ r, safe_urlsplit (wwwPrefix ++ tail) = some r ∧ r.netloc = wwwHost := by
+  unfold safe_urlsplit
+  have hp : protoLen (wwwPrefix ++ tail) = some 8 := by
+    have := Ural.C19.protoLen_https (wwwHost ++ '/' :: tail)
+    rw [← List.append_assoc] at this
+    exact this
+  rw [hp]
+  simp only [Option.isNone_some, Bool.false_eq_true, if_false]
+  unfold urlsplit
+  have hcl : cleanUrl (wwwPrefix ++ tail) = wwwPrefix ++ tail.filter (fun c => !isUnsafeUrlChar c) := by
+    unfold cleanUrl wwwPrefix
+    simp [List.dropWhile, List.filter, isC0OrSpace, isUnsafeUrlChar]
+  rw [hcl]
+  have hs : ∀ t : Str, splitScheme (wwwPrefix ++ t) [] =
+      (['h', 't', 't', 'p', 's'], '/' :: '/' :: wwwHost ++ '/' :: t) := by
+    intro t
+    unfold splitScheme wwwPrefix wwwHost
+    simp [splitFirst_cons_s20, isAsciiAlpha, isSchemeChar, isAsciiDigit, lower, lowerChar]
+  rw [hs]
+  have hn : ∀ t : Str, splitNetloc ('/' :: '/' :: wwwHost ++ '/' :: t) = (wwwHost, '/' :: t) := by
+    intro t
+    unfold splitNetloc wwwHost
+    simp [startsWith, List.isPrefixOf, List.takeWhile, List.dropWhile, isNetlocDelim]
+  simp only [hn]
+  have : netlocOk wwwHost = true := by decide
+  simp [this]
+
+/-- a url that starts with `https://www.youtube.com/` is a youtube url for every trie that knows
+`www.youtube.com` -/
+theorem is_youtube_url_www (puny : Str → Str) (t : HostnameTrieSet.T) (hT : Youtube.KnowsWww puny t)
+    (tail : Str) : Youtube.is_youtube_url puny t (wwwPrefix ++ tail) = true := by
+  obtain ⟨r, hr, hn⟩ := safe_urlsplit_www tail
+  unfold Youtube.is_youtube_url Youtube.isYoutubeParsed Youtube.hostnameOf
+  rw [hr]
+  simp only [hn]
+  have : pyHostname wwwHost = wwwHost := by decide
+  rw [this]
+  have hne : wwwHost ≠ [] := by decide
+  simp only [hne, if_false]
+  rw [wwwHost_eq]
+  exact hT
+
+/-- … and no facebook url -/
+theorem is_facebook_url_www (tail : Str) : Facebook.is_facebook_url (wwwPrefix ++ tail) = .ok false := by
+  obtain ⟨r, hr, hn⟩ := safe_urlsplit_www tail
+  unfold Facebook.is_facebook_url Facebook.get_hostname Facebook.safeUrlsplitE Facebook.hostnameOf
+  rw [hr]
+  simp only [Functor.map, Except.map, catchValueError, hn]
+  have h1 : pyHostname wwwHost = wwwHost := by decide
+  rw [h1]
+  have h2 : wwwHost.isEmpty = false := by decide
+  have h3 : reSearch Gen.C19Facebook.FACEBOOK_DOMAIN_RE wwwHost = false := by decide
+  simp [h2, h3]
+
+/-- every canonical url `normalize_youtube_url` builds starts with `https://www.youtube.com/` -/
+theorem recordUrl_www (r : Youtube.Record) : ∃ tail, Youtube.recordUrl r = wwwPrefix ++ tail := by
+  have e1 : Youtube.videoPrefix = wwwPrefix ++ "watch?v=".toList := by decide
+  have e2 : Youtube.userPrefix = wwwPrefix ++ "user/".toList := by decide
+  have e3 : Youtube.channelIdPrefix = wwwPrefix ++ "channel/".toList := by decide
+  have e4 : Youtube.channelNamePrefix = wwwPrefix := by decide
+  have e5 : Youtube.shortPrefix = wwwPrefix ++ "shorts/".toList := by decide
+  cases r with
+  | video id pl =>
+    cases pl with
+    | none => exact ⟨"watch?v=".toList ++ (id ++ []), by simp only [Youtube.recordUrl, e1, List.append_assoc]⟩
+    | some p =>
+      exact ⟨"watch?v=".toList ++ (id ++ (if p ≠ [] then Youtube.listInfix ++ p else [])),
+        by simp only [Youtube.recordUrl, e1, List.append_assoc]⟩
+  | user name => exact ⟨"user/".toList ++ name, by simp only [Youtube.recordUrl, e2, List.append_assoc]⟩
+  | channel id name =>
+    cases id with
+    | some i => exact ⟨"channel/".toList ++ i, by simp only [Youtube.recordUrl, e3, List.append_assoc]⟩
+    | none => exact ⟨Youtube.pyFormatOpt name, by simp only [Youtube.recordUrl, e4]⟩
+  | short id => exact ⟨"shorts/".toList ++ id, by simp only [Youtube.recordUrl, e5, List.append_assoc]⟩
+
 end Ural.Platform
